@@ -1,6 +1,6 @@
 SPECIFICATION TSpec
 CONSTANTS
-  Actors = {"S", "A", "B", "M"}
+  Actors = {"S", "A", "B", "M", "L"}
   NoA = "none"
   SupOf <- TrSupOf
   MaxMsgs <- TrMax
@@ -10,6 +10,7 @@ CONSTANTS
   EnvOps <- TrEnvOps
   KillCarriesState = TRUE
   Once = FALSE
+  Local = {"L"}
   MonPairs <- TrMonPairs
   Undecodable = {}
 CONSTRAINT Progress
